@@ -91,5 +91,92 @@ impl Metablock {
 //@before /let builder = LinkMetadataBuilder::new\(\)/
     proof { fact_string_ext(); fact_artifact_map_ext(); }
 //@end
+
+// ---- verify_sublayouts (C15) ----
+//@include prelude/vdisp.rs
+//@include contracts/keyid_stub.rs
+// std::path: join / to_str as uninterpreted functions of the texts
+pub uninterp spec fn path_join(dir: Seq<char>, name: Seq<char>) -> Seq<char>;
+pub uninterp spec fn pathbuf_text(p: PathBuf) -> Option<Seq<char>>;
+#[verifier::external_type_specification]
+#[verifier::external_body]
+pub struct ExPathBuf(PathBuf);
+#[verifier::external_type_specification]
+#[verifier::external_body]
+pub struct ExPath(Path);
+#[verifier::external_body]
+fn path_new_join(dir: &str, name: &String) -> (r: PathBuf)
+    ensures pathbuf_text(r) is Some ==> pathbuf_text(r)->0 == path_join(dir@, name@)
+{ Path::new(dir).join(name) }
+pub uninterp spec fn path_text(p: &Path) -> Option<Seq<char>>;
+pub assume_specification [<PathBuf as std::ops::Deref>::deref] (p: &PathBuf) -> (r: &Path)
+    ensures path_text(r) == pathbuf_text(*p);
+pub assume_specification [Path::to_str] (p: &Path) -> (r: Option<&str>)
+    ensures match path_text(p) { Some(t) => r is Some && r->0@ == t, None => r is None };
+
+//@extract src/verifylib.rs fn:in_toto_verify stub
+//@contract ret=r
+//@include contracts/in_toto_verify.rs
+//@end
+
+// C15: what verify_sublayouts guarantees for one (step, key) entry of its input
+pub open spec fn sub_entry_ok(layout: LayoutMetadata, link_dir: Seq<char>, step: String, k: KeyId, mb: Metablock, out: LinkMetadata) -> bool {
+    match mb.metadata {
+        MetadataWrapper::Link(l) => out == l,
+        MetadataWrapper::Layout(_) => layout.keys@.contains_key(k)
+            && verified(mb, Map::<KeyId, PublicKey>::empty().insert(k, layout.keys@[k]), path_join(link_dir, step@ + "."@ + spec_prefix(k.id())))
+            && out.name@ == step@,
+    }
+}
+//@extract src/verifylib.rs fn:verify_sublayouts props=C15,C14
+//@fmt 2
+//@subst D20 /Path::new\(link_dir\)\.join\(&sub_link_dir\)/ => path_new_join(link_dir, &sub_link_dir)
+//@subst G2 /let mut steps_link_metadata = HashMap::new\(\);/ => let mut steps_link_metadata: HashMap<String, HashMap<KeyId, LinkMetadata>> = HashMap::new();
+//@subst G2 /let mut link_per_step = HashMap::new\(\);/ => let mut link_per_step: HashMap<KeyId, LinkMetadata> = HashMap::new();
+//@subst G2 /let mut layout_key_dict = HashMap::new\(\);/ => let mut layout_key_dict: HashMap<KeyId, PublicKey> = HashMap::new();
+//@contract ret=r
+    ensures
+        r is Ok ==> r->Ok_0@.dom() == chain_link_dict@.dom(),     // [C15]
+        r is Ok ==> forall|step: String| #[trigger] chain_link_dict@.contains_key(step) ==>
+            r->Ok_0@[step]@.dom() == chain_link_dict@[step]@.dom()
+            && forall|k: KeyId| #[trigger] chain_link_dict@[step]@.contains_key(k) ==>
+                sub_entry_ok(*layout, link_dir@, step, k, chain_link_dict@[step]@[k], r->Ok_0@[step]@[k]),   // [C15]
+//@before /let mut steps_link_metadata/
+    let ghost in0 = chain_link_dict@;
+    proof { fact_string_ext(); fact_keyid_key_model(); fact_to_owned_keyid(); }
+//@loop 1 iter=it1
+        invariant
+            forall|a: String, b: String| #![trigger a@, b@] a@ == b@ ==> a == b,
+            vstd::std_specs::hash::obeys_key_model::<String>(),
+            vstd::std_specs::hash::obeys_key_model::<KeyId>(),
+            forall|x: KeyId, r: KeyId| #[trigger] to_owned_post(x, r) ==> r == x,
+            forall|i: int| 0 <= i < it1.seq().len() ==> in0.contains_key((#[trigger] it1.seq()[i]).0) && in0[it1.seq()[i].0] == it1.seq()[i].1,
+            forall|step: String| in0.contains_key(step) ==> exists|i: int| 0 <= i < it1.seq().len() && (#[trigger] it1.seq()[i]).0 == step,
+            forall|i: int| 0 <= i < it1.index() ==> steps_link_metadata@.contains_key((#[trigger] it1.seq()[i]).0),
+            forall|step: String| #[trigger] steps_link_metadata@.contains_key(step) ==> in0.contains_key(step)
+                && steps_link_metadata@[step]@.dom() == in0[step]@.dom()
+                && forall|k: KeyId| #[trigger] in0[step]@.contains_key(k) ==>
+                    sub_entry_ok(*layout, link_dir@, step, k, in0[step]@[k], steps_link_metadata@[step]@[k]),
+//@loop 2 iter=it2
+            invariant
+                forall|a: String, b: String| #![trigger a@, b@] a@ == b@ ==> a == b,
+                vstd::std_specs::hash::obeys_key_model::<String>(),
+                vstd::std_specs::hash::obeys_key_model::<KeyId>(),
+                forall|x: KeyId, r: KeyId| #[trigger] to_owned_post(x, r) ==> r == x,
+                forall|j: int| 0 <= j < it2.seq().len() ==> key_link_dict@.contains_key(*(#[trigger] it2.seq()[j]).0) && key_link_dict@[*it2.seq()[j].0] == *it2.seq()[j].1,
+                forall|k: KeyId| key_link_dict@.contains_key(k) ==> exists|j: int| 0 <= j < it2.seq().len() && *(#[trigger] it2.seq()[j]).0 == k,
+                forall|j: int| 0 <= j < it2.index() ==> link_per_step@.contains_key(*(#[trigger] it2.seq()[j]).0),
+                forall|k: KeyId| #[trigger] link_per_step@.contains_key(k) ==> key_link_dict@.contains_key(k)
+                    && sub_entry_ok(*layout, link_dir@, step_name, k, key_link_dict@[k], link_per_step@[k]),
+//@after_loop 2
+        proof { assert(link_per_step@.dom() =~= key_link_dict@.dom()); }
+//@after_loop 1
+    proof { assert(steps_link_metadata@.dom() =~= in0.dom()); }
+//@after /layout_key_dict\.insert\(keyid\.to_owned\(\), pubkey\.clone\(\)\);/
+                    proof {
+                        assert(layout_key_dict@ =~= Map::<KeyId, PublicKey>::empty().insert(*keyid, layout.keys@[*keyid]));
+                        assert(layout_key_dict@.dom() =~= set![*keyid]);
+                    }
+//@end
 } // verus!
 fn main() {}
